@@ -122,29 +122,61 @@ impl<T: ZeroCopy + DeserializeInner, const N: usize> DeserializeHelper<Zero> for
     }
 }
 
+/// The initialized prefix of an array under construction: if deserialization
+/// of a later item fails (or panics), the items already written are dropped
+/// instead of being leaked.
+struct PartialArray<T> {
+    ptr: *mut T,
+    len: usize,
+}
+
+impl<T> PartialArray<T> {
+    #[inline(always)]
+    fn push(&mut self, item: T) {
+        // SAFETY: the caller pushes at most as many items as the array holds.
+        unsafe { self.ptr.add(self.len).write(item) };
+        self.len += 1;
+    }
+}
+
+impl<T> Drop for PartialArray<T> {
+    fn drop(&mut self) {
+        // SAFETY: the first `len` items have been initialized.
+        unsafe { core::ptr::drop_in_place(core::ptr::slice_from_raw_parts_mut(self.ptr, self.len)) }
+    }
+}
+
 impl<T: DeepCopy + DeserializeInner, const N: usize> DeserializeHelper<Deep> for [T; N] {
     type FullType = Self;
     type DeserType<'a> = [<T as DeserializeInner>::DeserType<'a>; N];
     #[inline(always)]
     fn _deserialize_full_inner_impl(backend: &mut impl ReadWithPos) -> deser::Result<Self> {
         let mut res = MaybeUninit::<[T; N]>::uninit();
-        unsafe {
-            for item in &mut res.assume_init_mut().iter_mut() {
-                std::ptr::write(item, T::_deserialize_full_inner(backend)?);
-            }
-            Ok(res.assume_init())
+        let mut guard = PartialArray {
+            ptr: res.as_mut_ptr() as *mut T,
+            len: 0,
+        };
+        for _ in 0..N {
+            guard.push(T::_deserialize_full_inner(backend)?);
         }
+        core::mem::forget(guard);
+        // SAFETY: all N items have been written.
+        Ok(unsafe { res.assume_init() })
     }
     #[inline(always)]
     fn _deserialize_eps_inner_impl<'a>(
         backend: &mut SliceWithPos<'a>,
     ) -> deser::Result<<Self as DeserializeInner>::DeserType<'a>> {
         let mut res = MaybeUninit::<<Self as DeserializeInner>::DeserType<'_>>::uninit();
-        unsafe {
-            for item in &mut res.assume_init_mut().iter_mut() {
-                std::ptr::write(item, T::_deserialize_eps_inner(backend)?);
-            }
-            Ok(res.assume_init())
+        let mut guard = PartialArray {
+            ptr: res.as_mut_ptr() as *mut <T as DeserializeInner>::DeserType<'a>,
+            len: 0,
+        };
+        for _ in 0..N {
+            guard.push(T::_deserialize_eps_inner(backend)?);
         }
+        core::mem::forget(guard);
+        // SAFETY: all N items have been written.
+        Ok(unsafe { res.assume_init() })
     }
 }
